@@ -43,7 +43,9 @@ func respond(letter byte, sse bool) stack.Behaviour {
 		Headers: [][2]string{{"X-Backend-Marker", string(letter)}}}
 	if sse {
 		bh.Framing = "chunked"
-		bh.Headers = append(bh.Headers, [2]string{"Content-Type", "text/event-stream"})
+		if !noContentType {
+			bh.Headers = append(bh.Headers, [2]string{"Content-Type", "text/event-stream"})
+		}
 	} else {
 		bh.Framing = "cl"
 		if !noContentType {
@@ -123,7 +125,9 @@ func main() {
 					for k := 1; k <= 3; k++ {
 						cfgs = append(cfgs, cfg{e, p, b, sse, k, false, false})
 					}
-					if !sse && p == "auto" {
+					if p == "auto" {
+						// (with a declared length whatever is appended to a broken answer is cut off by the server; a chunked
+						// answer without a Content-Type shows it)
 						cfgs = append(cfgs, cfg{e, p, b, sse, 2, true, false})
 						cfgs = append(cfgs, cfg{e, p, b, sse, 2, true, true})
 					}
